@@ -308,9 +308,20 @@ func Delta(before, after map[string]any) []any {
 	return out
 }
 
-func (e *Env) Statuses() []any {
-	cids := append([]string{}, e.Clients...)
+// live lists the clients of this history that exist (a client state is stored), sorted.
+func (e *Env) live() []string {
+	var cids []string
+	for _, cid := range e.Clients {
+		if e.Store(cid).Has([]byte("clientState")) {
+			cids = append(cids, cid)
+		}
+	}
 	sort.Strings(cids)
+	return cids
+}
+
+func (e *Env) Statuses() []any {
+	cids := e.live()
 	out := []any{}
 	for _, cid := range cids {
 		ctx := e.Ctx()
@@ -345,8 +356,7 @@ func storeJSON(e *Env, store storetypes.KVStore) M {
 }
 
 func (e *Env) DumpJSON() M {
-	cids := append([]string{}, e.Clients...)
-	sort.Strings(cids)
+	cids := e.live()
 	out := []any{}
 	for _, cid := range cids {
 		out = append(out, []any{cid, storeJSON(e, e.Store(cid))})
